@@ -304,6 +304,17 @@ class Translator:
             return self._unroll_sum(e)
         if isinstance(e, (WignerD, Rotation, CG)):
             return self.tr(e.doit())
+        if isinstance(e, sp.log) and "log" in self.uf_functions:
+            return self._log(e)
+        if isinstance(e, sp.atan) and "atan" in self.uf_functions:
+            return self.uf_apply("atan", [self.tr(e.args[0])])
+        if isinstance(e, sp.atan2) and "atan" in self.uf_functions:
+            from .core import implied
+
+            y, x = self.tr(e.args[0]), self.tr(e.args[1])
+            if x.is_real() and y.is_real() and (x.as_fraction() or 0) > 0 or implied(ctx, x.gt(0)):
+                return self.uf_apply("atan", [y / x])  # atan2(y, x) = atan(y/x) for x > 0
+            raise Unsupported("atan2 with a denominator not proven positive")
         if isinstance(e, AppliedUndef) or (isinstance(e, sp.Function) and type(e).__name__ in self.uf_functions):
             return self._uf(e)
         clsname = type(e).__name__
@@ -396,25 +407,60 @@ class Translator:
         return self._unit_exp(coeff)
 
     def _uf(self, e) -> V:
-        """Uninterpreted function application, Ackermannised: one fresh real variable per
-        distinct argument tuple plus functional-consistency constraints (args equal =>
-        values equal).  Keeps the query inside pure NRA."""
         name = e.func.__name__ if hasattr(e.func, "__name__") else str(e.func)
-        args = [self.tr(a) for a in e.args]
-        zargs = [a.real_term_nodiv() for a in args]
-        key = (name, tuple(z.get_id() for z in zargs))
-        apps = self.ctx.__dict__.setdefault("uf_apps", {})
+        return self.uf_apply(name, [self.tr(a) for a in e.args], e)
+
+    def uf_apply(self, name: str, args: list, expr=None, axioms=()) -> V:
+        """Uninterpreted real function applied to real values, Ackermannised: one fresh real
+        variable per distinct argument tuple plus functional-consistency constraints (args
+        equal => values equal; compared fraction-free).  Keeps queries inside pure NRA.
+        axioms: 'reciprocal-negates' adds  a*b == 1 => f(a) == -f(b)  (log)."""
+        ctx = self.ctx
+        nd = []
+        for a in args:
+            n, den = a.single_real()
+            nd.append((to_z3(n), to_z3(a._den_term(den))))
+        key = (name, tuple((n.get_id(), d.get_id()) for n, d in nd))
+        apps = ctx.__dict__.setdefault("uf_apps", {})
         hit = apps.get(key)
         if hit is None:
-            v = self.ctx.fresh(f"uf[{name}]")
-            for (n2, _), (v2, zargs2) in apps.items():
-                if n2 == name and len(zargs2) == len(zargs):
-                    same = z3.And(*[a == b for a, b in zip(zargs, zargs2)]) if zargs else z3.BoolVal(True)
-                    self.ctx.assume(z3.Implies(same, v == v2))
-            apps[key] = (v, zargs)
-            self.ctx.__dict__.setdefault("uf_exprs", {})[str(v)] = e
+            v = ctx.fresh(f"uf[{name}]")
+            for (n2, _), (v2, nd2) in apps.items():
+                if n2 == name and len(nd2) == len(nd):
+                    same = z3.And(*[a[0] * b[1] == b[0] * a[1] for a, b in zip(nd, nd2)]) if nd else z3.BoolVal(True)
+                    ctx.assume(z3.Implies(same, v == v2))
+                    if "reciprocal-negates" in axioms and len(nd) == 1:
+                        (a0, a1), (b0, b1) = nd[0], nd2[0]
+                        ctx.assume(z3.Implies(a0 * b0 == a1 * b1, v == -v2))
+            apps[key] = (v, nd)
+            if expr is not None:
+                ctx.__dict__.setdefault("uf_exprs", {})[str(v)] = expr
             hit = apps[key]
-        return V(self.ctx, {B1: (hit[0], ZERO)})
+        return V(ctx, {B1: (hit[0], ZERO)})
+
+    def _log(self, e) -> V:
+        """Principal-branch log with an uninterpreted real log L on positive reals:
+        real x: log x = L(x) (x>0), L(-x) + i*pi (x<0);  unit-modulus z = x+iy (x > -1):
+        log z = i*2*atan(y/(1+x)) with an uninterpreted atan.  |z| = 1 and x > -1 are side obligations."""
+        from .core import implied
+
+        ctx = self.ctx
+        x = self.tr(e.args[0])
+        pi = self.tr(sp.pi)
+        if x.is_real():
+            pos = self.uf_apply("log", [x], axioms=("reciprocal-negates",))
+            if self.branch_by_solver and implied(ctx, x.gt(0)):
+                return pos
+            neg = self.uf_apply("log", [-x], axioms=("reciprocal-negates",)) + ctx.I() * pi
+            if self.branch_by_solver and implied(ctx, x.lt(0)):
+                return neg
+            return ite(x.gt(0), pos, neg)
+        re, im = x.real_part(), x.imag_part()
+        for _, t in (re * re + im * im).eq_components(ctx.const(1)):
+            ctx.require("log of a complex number: |z| == 1", t == 0)
+        ctx.require("log of a complex number: Re z > -1", (re + 1).gt(0))
+        theta_half = self.uf_apply("atan", [im / (re + 1)])
+        return ctx.I() * 2 * theta_half
 
 
 class Angle:
